@@ -79,6 +79,13 @@ def build(seed, cell, vig=False, wide=False, rear=False):
                             kinds=("standard", "standard", "even_asphere"), mirrors=(seed % 5 == 0))
     if tel:
         o.obj_space_telecentric = True
+    if seed % 4 == 1:
+        # a field list whose largest-magnitude field is negative: "maximum field" is the largest
+        # magnitude (the normalisation of H), not the largest signed value
+        fl = o.fields.fields
+        big = max(fl, key=lambda f: abs(f.y))
+        big.y = -abs(big.y)
+        meta["largest_field_negative"] = True
     if vig:
         for f in o.fields.fields:
             if f.y != 0 or rnd.random() < 0.5:
